@@ -421,6 +421,9 @@ def procLine (d : D) (toks : List String) : D :=
       if failed && ! hostIsOff then fail d (.monfail s!"a{a} terminated with failed=true but its host never failed")
       else
         let mw := (d.s.actors a).wannadie
+        -- an actor whose simcall was answered and whose host is turned off later in the SAME scheduling round is killed
+        -- before it resumes: it never sees that answer (there is no `ret` line), only its on_exit(failed = true)
+        let d := if failed then { d with pend := d.pend.filter (fun p => p.1 != a) } else d
         if mw != failed then fail d (.disagree s!"a{a} on_exit(failed={f}) but the model says wannadie={mw}")
         else if ! failed && (d.progs.getD a []).length != (d.returned.filter (·.1 == a)).length then
           fail d (.disagree s!"a{a} terminated normally before the end of its program")
